@@ -5,7 +5,9 @@
    table [ob] of the other builtin procedures.                                   *)
 From MW Require Import Model.Base Model.Datum Model.VmTypes Model.Heap Model.Gc Model.VmBase Model.Vm
   Model.Builtins Proofs.HeapProofs Proofs.VmProofs Proofs.SymtabProofs Proofs.QuoteHeapProofs
-  Proofs.RunProofs Proofs.CompileCorrect Proofs.ContProofs Proofs.ContExample.
+  Proofs.RunProofs Proofs.CompileCorrect Proofs.ContProofs Proofs.ContExample
+  Proofs.MonoBase Proofs.MonoCompile Proofs.MonoStep Proofs.MonoBuiltins Proofs.MonoCont Proofs.MonoTcall
+  Proofs.MonoExample.
 Open Scope N_scope.
 
 (* Capture.  The machine is at a CALL/TCALL (instruction pointer already past it)
@@ -379,3 +381,261 @@ Example C05_example_run :
    | ROk (Done a) _, ROk (Done b) _ => a = b /\ write a = [49]
    | _, _ => False end).
 Proof. vm_compute. repeat split. Qed.
+
+
+(* =================================================================================
+   [klive] is PRESERVED by everything the machine does (proofs: Proofs/MonoBase.v,
+   MonoCompile.v, MonoStep.v, MonoBuiltins.v, MonoCont.v), for the real builtin table
+   [other_builtin]: continuation objects are only ever ADDED to the Rc table (to_continuation,
+   at the fresh id next_id; no instruction, builtin or compilation removes or overwrites one)
+   and the stack vector never shrinks (C07_cap_monotone).  Hence a continuation captured in one
+   top-level evaluation is live in every later state: later in the same evaluation, after it
+   ended (with a value, a run-time failure or a compile-time failure), and at any point of any
+   later evaluation — which makes C05_invoke_equals_return / C05_escape_discards applicable
+   "from a later top-level evaluation, any number of times" with no side condition.
+   ================================================================================= *)
+(* the relation every instruction / builtin / compilation / evaluation satisfies *)
+Theorem C05_kmono_unfold : forall s s',
+  kmono s s' <->
+  (scap s <= scap s' /\ next_id (st s) <= next_id (st s') /\
+   forall j, j < next_id (st s) -> tget (conts (st s')) j = tget (conts (st s)) j).
+Proof.
+  intros s s'. split.
+  - intros [H1 [H2 H3]]. auto.
+  - intros (H1 & H2 & H3). split; [exact H1|split; [exact H2|exact H3]].
+Qed.
+Print Assumptions C05_kmono_unfold.
+
+Theorem C05_step_kmono : forall s,
+  match run_one other_builtin s with
+  | ROk _ s' => kmono s s' | RErr _ _ s' => kmono s s' | _ => True end.
+Proof. intros s. pose proof (km_run_one other_builtin km_other_builtin s) as H. destruct (run_one other_builtin s); exact H. Qed.
+Print Assumptions C05_step_kmono.
+
+Theorem C05_builtin_kmono : forall b s,
+  match run_builtin other_builtin b s with
+  | ROk _ s' => kmono s s' | RErr _ _ s' => kmono s s' | _ => True end.
+Proof. intros b s. pose proof (km_run_builtin other_builtin km_other_builtin b s) as H. destruct (run_builtin other_builtin b s); exact H. Qed.
+Print Assumptions C05_builtin_kmono.
+
+Theorem C05_prepare_eval_kmono : forall e s,
+  match prepare_eval e s with
+  | ROk _ s' => kmono s s' | RErr _ _ s' => kmono s s' | _ => True end.
+Proof. intros e s. pose proof (prepare_eval_kmono e s) as H. destruct (prepare_eval e s); exact H. Qed.
+Print Assumptions C05_prepare_eval_kmono.
+
+Theorem C05_eval_kmono : forall fuel e s,
+  match eval other_builtin fuel e s with
+  | ROk _ s' => kmono s s' | RErr _ _ s' => kmono s s' | _ => True end.
+Proof. intros fuel e s. pose proof (eval_kmono other_builtin km_other_builtin fuel e s) as H. destruct (eval other_builtin fuel e s); exact H. Qed.
+Print Assumptions C05_eval_kmono.
+
+(* klive through one instruction, one compilation, one whole evaluation (any outcome) *)
+Theorem C05_klive_kmono : forall cid k s s',
+  klive cid k s -> cid < next_id (st s) -> kmono s s' -> klive cid k s' /\ cid < next_id (st s').
+Proof. exact klive_kmono. Qed.
+Print Assumptions C05_klive_kmono.
+
+Theorem C05_klive_step : forall cid k s r s',
+  klive cid k s -> cid < next_id (st s) -> run_one other_builtin s = ROk r s' ->
+  klive cid k s' /\ cid < next_id (st s').
+Proof. exact (klive_step other_builtin km_other_builtin). Qed.
+Print Assumptions C05_klive_step.
+
+Theorem C05_klive_prepare_eval : forall cid k s c u s',
+  klive cid k s -> cid < next_id (st s) -> prepare_eval c s = ROk u s' ->
+  klive cid k s' /\ cid < next_id (st s').
+Proof. exact klive_prepare. Qed.
+Print Assumptions C05_klive_prepare_eval.
+
+Theorem C05_klive_eval : forall cid k s fuel c res s',
+  klive cid k s -> cid < next_id (st s) -> eval other_builtin fuel c s = ROk res s' ->
+  klive cid k s' /\ cid < next_id (st s').
+Proof. exact (klive_eval other_builtin km_other_builtin). Qed.
+Print Assumptions C05_klive_eval.
+
+(* [later ob s s']: s' is reached from s by any sequence of single instructions, run-loop
+   slices (to HALT, to a failure, or to the end of a budget), compilations and whole
+   evaluations *)
+Theorem C05_later_unfold : forall ob s s',
+  later ob s s' <->
+  (s' = s \/
+   (exists r s1, run_one ob s = ROk r s1 /\ later ob s1 s') \/
+   (exists fuel cyc count res s1, run_loop ob fuel cyc count s = ROk res s1 /\ later ob s1 s') \/
+   (exists c u s1, prepare_eval c s = ROk u s1 /\ later ob s1 s') \/
+   (exists fuel c res s1, eval ob fuel c s = ROk res s1 /\ later ob s1 s')).
+Proof.
+  intros ob s s'. split.
+  - intros H. destruct H as [s|s r s1 s' H L|s fuel cyc count res s1 s' H L|s c u s1 s' H L|s fuel c res s1 s' H L].
+    + left. reflexivity.
+    + right. left. eauto.
+    + right. right. left. eauto 8.
+    + right. right. right. left. eauto.
+    + right. right. right. right. eauto 8.
+  - intros [->|[(r & s1 & H & L)|[(fuel & cyc & count & res & s1 & H & L)|[(c & u & s1 & H & L)|(fuel & c & res & s1 & H & L)]]]].
+    + apply lt_refl.
+    + eapply lt_step; eassumption.
+    + eapply lt_run; eassumption.
+    + eapply lt_prepare; eassumption.
+    + eapply lt_eval; eassumption.
+Qed.
+Print Assumptions C05_later_unfold.
+
+Theorem C05_later_kmono : forall s s', later other_builtin s s' -> kmono s s'.
+Proof. exact (later_kmono other_builtin km_other_builtin). Qed.
+Print Assumptions C05_later_kmono.
+
+Theorem C05_klive_later : forall cid k s s',
+  klive cid k s -> cid < next_id (st s) -> later other_builtin s s' ->
+  klive cid k s' /\ cid < next_id (st s').
+Proof. exact (klive_later other_builtin km_other_builtin). Qed.
+Print Assumptions C05_klive_later.
+
+(* the capture makes the continuation live — no heap hypothesis (cf. C05_klive_captured) *)
+Theorem C05_klive_captured_any : forall ob m lp i bc tail fp pv,
+  at_callcc ob m lp i bc tail fp pv ->
+  klive (next_id (st m)) (k_cap m lp i) (s_cap m lp i fp) /\
+  next_id (st m) < next_id (st (s_cap m lp i fp)).
+Proof. exact klive_s_cap_any. Qed.
+Print Assumptions C05_klive_captured_any.
+
+(* a continuation captured at m (s_cap = the state one instruction later, C05_callcc_step) is
+   live in EVERY later state *)
+Theorem C05_captured_live_later : forall m lp i bc tail fp pv s',
+  at_callcc other_builtin m lp i bc tail fp pv ->
+  later other_builtin (s_cap m lp i fp) s' -> klive (next_id (st m)) (k_cap m lp i) s'.
+Proof. exact (captured_live_later other_builtin km_other_builtin). Qed.
+Print Assumptions C05_captured_live_later.
+
+(* C05_invoke_equals_return with the liveness hypothesis REPLACED by "s' comes later": any
+   state of any later evaluation that applies k to v.  The invoked state s_inv is again
+   "later", so the theorem applies to every state after it: any number of times. *)
+Theorem C05_invoke_equals_return_later : forall m lp i bc fp pv mr lq iq bq s' tail' v,
+  at_callcc other_builtin m lp i bc false fp pv ->
+  in_cc_frame m lp i mr -> code_in mr lq bq -> ip mr = (lq, iq) -> seg bq iq [VOp ORet] -> acc mr = v ->
+  later other_builtin (s_cap m lp i fp) s' -> at_invoke s' (next_id (st m)) tail' ->
+  sget s' (sp s' - 1) = v ->
+  exists s_ret s_inv,
+    run_one other_builtin mr = ROk false s_ret /\ run_one other_builtin s' = ROk false s_inv /\
+    (sp s_inv = sp s_ret /\ bp s_inv = bp s_ret /\ ep s_inv = ep s_ret /\ ip s_inv = ip s_ret /\
+     acc s_inv = acc s_ret /\ forall j, j <= sp s_ret -> sget s_inv j = sget s_ret j) /\
+    sp s_ret = sp m - 2 /\ bp s_ret = bp m /\ ep s_ret = ep m /\ ip s_ret = (lp, i + 1) /\ acc s_ret = v /\
+    (forall j, j <= sp m - 2 -> sget s_ret j = sget m j) /\
+    hp s_inv = hp s' /\ st s_inv = st s' /\ g_bind s_inv = g_bind s' /\ g_slots s_inv = g_slots s' /\
+    out_log s_inv = out_log s' /\ scap s_inv = scap s' /\
+    later other_builtin (s_cap m lp i fp) s_inv.
+Proof. exact (invoke_equals_return_later other_builtin km_other_builtin). Qed.
+Print Assumptions C05_invoke_equals_return_later.
+
+Theorem C05_escape_discards_later : forall m lp i bc tail fp pv s' tail',
+  at_callcc other_builtin m lp i bc tail fp pv ->
+  later other_builtin (s_cap m lp i fp) s' -> at_invoke s' (next_id (st m)) tail' ->
+  exists s_inv, run_one other_builtin s' = ROk false s_inv /\
+    sp s_inv = sp m - 2 /\ bp s_inv = bp m /\ ep s_inv = ep m /\ ip s_inv = (lp, i + 1) /\
+    (forall j, j <= sp m - 2 -> sget s_inv j = sget m j) /\
+    (forall j, sp m - 2 < j -> sget s_inv j = sget s' j).
+Proof. exact (escape_discards_later other_builtin km_other_builtin). Qed.
+Print Assumptions C05_escape_discards_later.
+
+(* non-vacuity: in the session of ContExample.v the invoking state cx_s' (form 2 at its TCALL
+   of kk) IS later than the capture in form 1 — the rest of evaluation 1 as one run-loop slice,
+   the compilation of form 2, eight instructions of evaluation 2 — so every hypothesis of
+   C05_invoke_equals_return_later holds, and liveness of the continuation in cx_s' FOLLOWS *)
+Example C05_example_later :
+  at_callcc other_builtin cx_m 290 11 (cx_bc cx_m 290) false 293 (VClosure 289 292) /\
+  in_cc_frame cx_m 290 11 cx_mr /\
+  later other_builtin (s_cap cx_m 290 11 293) cx_s' /\
+  at_invoke cx_s' (next_id (st cx_m)) true /\
+  sget cx_s' (sp cx_s' - 1) = VPtr 288 /\
+  klive (next_id (st cx_m)) (k_cap cx_m 290 11) cx_s'.
+Proof.
+  split; [exact cx_at_callcc|]. split; [exact cx_in_cc_frame|]. split; [exact cx_later_chain|].
+  split; [exact cx_at_invoke|]. split; [exact cx_arg|].
+  exact (C05_captured_live_later _ _ _ _ _ _ _ _ cx_at_callcc cx_later_chain).
+Qed.
+
+
+(* =================================================================================
+   call/cc in TAIL position (a TCALL site; proofs: Proofs/MonoTcall.v).  The saved instruction
+   pointer (lp, i+1) is the RET that follows the TCALL in the body of the procedure containing
+   the site.  A tail-called receiver REPLACES that procedure's frame (TCALL reuses it in place
+   when the argument counts agree and rebuilds it otherwise) and its own RET returns to the
+   caller's caller.  Invoking k restores the containing procedure's frame; ONE more instruction,
+   that RET, pops it.  So the equality with the receiver's normal return holds one RET later.
+   [site_frame m n e0 l0 i0 b0]: the frame of the containing procedure at m;
+   [in_tcc_frame m n e0 l0 i0 b0 mr n']: mr sits in a frame (of n' arguments) that returns to
+   the same place.  That TCALL + ENTER of a closure produce such a frame is NOT derived here
+   (TailProofs.tcall_frame_effect is the lemma to instantiate): it is a hypothesis, checked on
+   the example below by computation.
+   ================================================================================= *)
+Theorem C05_site_frame_unfold : forall m n e0 l0 i0 b0,
+  site_frame m n e0 l0 i0 b0 <->
+  (sget m (bp m + 1) = VArgc n /\ sget m (bp m + 2) = VEp e0 /\ sget m (bp m + 3) = VIp l0 i0 /\
+   sget m (bp m + 4) = VBp b0 /\ n <= bp m /\ bp m + 4 <= sp m - 2).
+Proof.
+  intros. split.
+  - intros [H1 H2 H3 H4 H5 H6]. auto 8.
+  - intros (H1 & H2 & H3 & H4 & H5 & H6). constructor; assumption.
+Qed.
+Print Assumptions C05_site_frame_unfold.
+
+Theorem C05_in_tcc_frame_unfold : forall m n e0 l0 i0 b0 mr n',
+  in_tcc_frame m n e0 l0 i0 b0 mr n' <->
+  (sget mr (bp mr + 1) = VArgc n' /\ n' <= bp mr /\ bp mr - n' = bp m - n /\
+   sget mr (bp mr + 2) = VEp e0 /\ sget mr (bp mr + 3) = VIp l0 i0 /\ sget mr (bp mr + 4) = VBp b0 /\
+   (forall j, j <= bp m - n -> sget mr j = sget m j) /\ bp mr + 4 < scap mr).
+Proof.
+  intros. split.
+  - intros [H1 H2 H3 H4 H5 H6 H7 H8]. auto 10.
+  - intros (H1 & H2 & H3 & H4 & H5 & H6 & H7 & H8). constructor; assumption.
+Qed.
+Print Assumptions C05_in_tcc_frame_unfold.
+
+(* m: AT the TCALL of call/cc, followed by RET; mr: the tail-called receiver at its RET with
+   %acc = v; s': any state (klive) applying k to v in which the code object of the site is still
+   there.  Then  mr --RET--> s_ret,  s' --invoke--> s_inv (at that RET) --RET--> s_inv2,  and
+   s_inv2, s_ret agree on sp, bp, ep, ip, acc and every slot <= sp; they are the registers of
+   the containing procedure's CALLER: sp = bp m - n, bp = b0, ep = e0, ip = (l0, i0), acc = v. *)
+Theorem C05_invoke_equals_return_tcall : forall ob m lp i bc fp pv n e0 l0 i0 b0 mr n' lq iq bq s' tail' v,
+  at_callcc ob m lp i bc true fp pv -> seg bc (i + 1) [VOp ORet] ->
+  site_frame m n e0 l0 i0 b0 ->
+  in_tcc_frame m n e0 l0 i0 b0 mr n' -> code_in mr lq bq -> ip mr = (lq, iq) -> seg bq iq [VOp ORet] -> acc mr = v ->
+  klive (next_id (st m)) (k_cap m lp i) s' -> at_invoke s' (next_id (st m)) tail' ->
+  sget s' (sp s' - 1) = v -> code_in s' lp bc ->
+  exists s_ret s_inv s_inv2,
+    run_one ob mr = ROk false s_ret /\ run_one ob s' = ROk false s_inv /\ run_one ob s_inv = ROk false s_inv2 /\
+    (sp s_inv2 = sp s_ret /\ bp s_inv2 = bp s_ret /\ ep s_inv2 = ep s_ret /\ ip s_inv2 = ip s_ret /\
+     acc s_inv2 = acc s_ret /\ forall j, j <= sp s_ret -> sget s_inv2 j = sget s_ret j) /\
+    ip s_inv = (lp, i + 1) /\
+    sp s_ret = bp m - n /\ bp s_ret = b0 /\ ep s_ret = e0 /\ ip s_ret = (l0, i0) /\ acc s_ret = v /\
+    (forall j, j <= bp m - n -> sget s_ret j = sget m j) /\
+    hp s_inv2 = hp s' /\ st s_inv2 = st s' /\ g_bind s_inv2 = g_bind s' /\ g_slots s_inv2 = g_slots s' /\
+    out_log s_inv2 = out_log s' /\ scap s_inv2 = scap s' /\
+    klive (next_id (st m)) (k_cap m lp i) s_inv2.
+Proof. exact invoke_equals_return_tcall. Qed.
+Print Assumptions C05_invoke_equals_return_tcall.
+
+(* non-vacuity: ((lambda (f) (call/cc f)) (lambda (k) (set! kk k) 'a)) after (define kk #f),
+   then (kk 'a) in a later evaluation.  tx_m: at the TCALL of call/cc (code object 291,
+   instruction 10, RET at 11) inside the frame of (lambda (f) ...) (1 argument, returns to
+   (293, 6)); tx_mr: the tail-called receiver at its RET (code object 289, instruction 13);
+   tx_s': form 2 at its TCALL of kk.  All hypotheses hold; one RET after tx_mr and two
+   instructions after tx_s' the machines agree: ip (293, 6), sp 0, bp 0, %acc = a. *)
+Example C05_example_tcall :
+  at_callcc other_builtin tx_m 291 10 (cx_bc tx_m 291) true 295 (VClosure 289 294) /\
+  seg (cx_bc tx_m 291) (10 + 1) [VOp ORet] /\
+  site_frame tx_m 1 USIZE_MAX 293 6 0 /\ in_tcc_frame tx_m 1 USIZE_MAX 293 6 0 tx_mr 1 /\
+  (code_in tx_mr 289 (cx_bc tx_mr 289) /\ ip tx_mr = (289, 13) /\
+   seg (cx_bc tx_mr 289) 13 [VOp ORet] /\ acc tx_mr = VPtr 288) /\
+  klive (next_id (st tx_m)) (k_cap tx_m 291 10) tx_s' /\ at_invoke tx_s' (next_id (st tx_m)) true /\
+  sget tx_s' (sp tx_s' - 1) = VPtr 288 /\ code_in tx_s' 291 (cx_bc tx_m 291) /\
+  (match steps other_builtin 1 tx_mr, steps other_builtin 2 tx_s' with
+   | Some a, Some b => ip a = (293, 6) /\ ip b = (293, 6) /\ sp a = 0 /\ sp b = 0 /\ bp a = 0 /\ bp b = 0 /\
+                       acc a = VPtr 288 /\ acc b = VPtr 288
+   | _, _ => False end).
+Proof.
+  split; [exact tx_at_callcc|]. split; [exact tx_ret_after|]. split; [exact tx_site_frame|].
+  split; [exact tx_in_tcc_frame|]. split; [exact tx_mr_at_ret|]. split; [exact tx_klive|].
+  split; [exact tx_at_invoke|]. split; [exact tx_arg|]. split; [exact tx_code_later|].
+  vm_compute. repeat split.
+Qed.
